@@ -14,8 +14,15 @@ def build_corpus(seed, tier):
     base.fam_names()
     out = C.Corpus(seed, tier)
     lim = 120 if tier == "thorough" else 36
+    # enums and variants named like the things the generated code mentions come first, so that they are inside the limit
+    named = C.Corpus(seed, tier)
+    named.fam_idents()
+    picked = [s for i, s in enumerate(named.subjects) if i % 2 == 0][:26]
+    for s in picked:
+        base.ops[s.sid] = named.ops[s.sid]
+    lim += len(picked)
     k = 0
-    for s in base.subjects:
+    for s in picked + base.subjects:
         if len(s.variants) > 300 or k >= lim:
             continue
         for mode in ("shadow", "noprelude"):
